@@ -686,6 +686,12 @@ func (nfs *Nfs) NFSPROC3_RENAME(args nfstypes.RENAME3args) nfstypes.RENAME3res {
 			break
 		}
 		util.DPrintf(3, "frominum %d toinum %d\n", frominum, toinum)
+		if frominum == dipto.Inum {
+			// a directory cannot be moved into itself
+			errRet(op, &reply.Status, nfstypes.NFS3ERR_INVAL)
+			done = true
+			break
+		}
 
 		toInumLookup, _ := dir.LookupName(dipto, op, args.To.Name)
 		toinum = toInumLookup
